@@ -211,7 +211,7 @@ def run_property(prop, tier, seed, nshards=None, quiet=False):
             path = rdir / ("%016x.json" % h64(body))
             path.write_text(body)
             lines.append("VIOLATION property=%s replay=%s" % (prop, path))
-            lines.append("  monitor=%s op=%s (%d similar) :: %s" % (v["monitor"], v["op"], len(vs), str(v["msg"])[:400]))
+            lines.append("  monitor=%s op=%s (%d similar) :: %s" % (v["monitor"], v["op"], len(vs), str(v["msg"])[:260]))
 
     wall = time.time() - t0
     evaluations = sum(M["evals"].values())
